@@ -276,30 +276,49 @@ def r11_5(prog, out):
         raise CheckBroken("manager create flow not found")
 
 
-def flag_false_blocks(prog, R, bi, cell):
-    """blocks only reachable when the bool field `cell` was read as false (the not-yet-deleted arm)"""
-    out = set()
+def flag_regions(prog, bi, cell):
+    """(false_blocks, true_blocks): blocks only reachable when the bool field `cell` was read as false / as true, whether
+    the test is written `if self.deleted { return }` or `if !self.deleted { .. }`"""
+    from mapstate import _bool_switches
+    fa_blocks, tr_blocks = set(), set()
     if cell is None:
-        return out
+        return fa_blocks, tr_blocks
     for blk in bi.body.blocks:
         if blk.cleanup or blk.idx not in bi.cfg.reach:
             continue
+        # a local that is a copy of the flag
+        for st in blk.stmts:
+            if st.k == "assign" and st.lhs.is_local() and st.rv.k == "use" and st.rv.ops[0].place is not None:
+                cs = prog.receiver_origin(bi, st.rv.ops[0].place).cells()
+                if cs and cs[-1] == cell:
+                    for sw, tr, fa in _bool_switches(bi, st.lhs.local):
+                        if fa is not None:
+                            fa_blocks |= bi.cfg.edge_dominated(sw, fa)
+                        if tr is not None:
+                            tr_blocks |= bi.cfg.edge_dominated(sw, tr)
+            elif st.k == "assign" and st.lhs.is_local() and st.rv.k == "un" and st.rv.j.get("op") == "Not" and st.rv.ops[0].place is not None \
+                    and not st.rv.ops[0].place.is_local():
+                cs = prog.receiver_origin(bi, st.rv.ops[0].place).cells()
+                if cs and cs[-1] == cell:
+                    for sw, tr, fa in _bool_switches(bi, st.lhs.local):     # the local holds !flag
+                        if tr is not None:
+                            fa_blocks |= bi.cfg.edge_dominated(sw, tr)
+                        if fa is not None:
+                            tr_blocks |= bi.cfg.edge_dominated(sw, fa)
         t = blk.term
-        if t.k != "switch" or t.discr is None or t.discr.place is None:
-            continue
-        o = prog.receiver_origin(bi, t.discr)
-        hit = cell in o.cells()
-        if not hit and t.discr.place.is_local():
-            for (db, di) in bi.defs.get(t.discr.place.local, []):
-                if di >= 0:
-                    for op in bi.stmt(db, di).rv.ops:
-                        if op.place is not None and cell in prog.receiver_origin(bi, op.place).cells():
-                            hit = True
-        if hit:
-            arms = dict(t.arms)
-            if 0 in arms:
-                out |= bi.cfg.edge_dominated(blk.idx, arms[0])
-    return out
+        if t.k == "switch" and t.discr is not None and t.discr.place is not None and not t.discr.place.is_local():
+            cs = prog.receiver_origin(bi, t.discr).cells()
+            if cs and cs[-1] == cell:
+                arms = dict(t.arms)
+                if 0 in arms:
+                    fa_blocks |= bi.cfg.edge_dominated(blk.idx, arms[0])
+                tr_blocks |= bi.cfg.edge_dominated(blk.idx, t.otherwise)
+    return fa_blocks, tr_blocks
+
+
+def flag_false_blocks(prog, R, bi, cell):
+    """blocks only reachable when the bool field `cell` was read as false (the not-yet-deleted arm)"""
+    return flag_regions(prog, bi, cell)[0]
 
 
 @rule("C11", "R11.6", "a removal by name on behalf of one incarnation is identity-checked or happens at most once per incarnation", floor=3)
@@ -327,7 +346,26 @@ def r11_6(prog, out):
                     out.violation(key, bi.loc(rem[0].bb), "the %s actor removes its name from the manager without a once-only guard (no `deleted` flag): a second Delete that reaches "
                                   "the old actor removes a newer %s created under the same name" % (label, label))
                 elif all(e.bb in ok for e in rem):
-                    out.holds(key, bi.loc(rem[0].bb), "runs only on the first Delete of this incarnation (under `!self.deleted`)")
+                    # .. and that first Delete really sets the flag, on every path that removes the entry
+                    sets = [e for e in prog.effects(tid) if e.kind == "write" and not e.chain and e.cells and e.cells[-1] == flag]
+                    good_sets = set()
+                    for e in sets:
+                        st = bi.stmt(*e.extra) if e.extra else None
+                        if st is not None and st.rv.k == "use" and st.rv.ops[0].const_bool() is True:
+                            good_sets.add(e.bb)
+                    _fa, tr_blocks = flag_regions(prog, bi, flag)
+                    esc = None
+                    for e in rem:
+                        # from the entry to the removal and on to the return, the flag is raised somewhere
+                        if not any(bi.cfg.dominates(sb, e.bb) or bi.cfg.escapes(e.bb, {sb}) is None for sb in good_sets):
+                            esc = e.bb
+                    if not good_sets:
+                        out.violation(key, bi.loc(rem[0].bb), "the `deleted` guard is tested but the handler never sets the flag: every Delete that reaches this actor "
+                                      "removes the name from the manager again, including a newer %s created under the same name" % label)
+                    elif esc is not None:
+                        out.violation(key, bi.loc(esc), "a path removes the manager entry without raising the `deleted` flag: the next Delete repeats the removal")
+                    else:
+                        out.holds(key, bi.loc(rem[0].bb), "runs only on the first Delete of this incarnation (under `!self.deleted`), which raises the flag")
                 else:
                     out.violation(key, bi.loc(rem[0].bb), "the manager entry is removed by name on a path that is not guarded by the actor's `deleted` flag: a stale duplicate "
                                   "Delete removes a newer %s of the same name" % label)
@@ -364,6 +402,22 @@ def r11_6(prog, out):
             for a in t.args:
                 fs |= sl.of(tid, a).fields
             if (ident in fs or t.callee.path.endswith("ptr_eq")) and all(bi.cfg.dominates(blk.idx, e.bb) for e in rem):
+                checked = True
+    # the comparison may be wrapped (get(..).is_some_and(|s| s.internal_id == id), map(..) == Some(id)): a branch whose
+    # condition derives from an identity comparison and whose arm is the only way to the removal
+    if not checked and rem:
+        for blk in bi.body.blocks:
+            if blk.cleanup or blk.idx not in bi.cfg.reach:
+                continue
+            t = blk.term
+            if t.k != "switch" or t.discr is None or t.discr.place is None:
+                continue
+            arms_to = [x for x in bi.cfg.succ[blk.idx] if all(e.bb in bi.cfg.edge_dominated(blk.idx, x) for e in rem)]
+            if not arms_to:
+                continue
+            sd = sl.of(tid, t.discr)
+            compares = bool({"Eq", "Ne"} & sd.ops) or any(c.split("::")[-1] in ("eq", "ne", "ptr_eq") for c in sd.calls)
+            if ident in sd.fields and compares:
                 checked = True
     key = "detach-identity:%s" % prog.short(tid)
     if checked:
